@@ -3,6 +3,7 @@ import Arc.Generated.C12
 import Arc.Proofs.C12.Abs
 import Arc.Proofs.C12.Ops
 import Arc.Proofs.C12.Repair
+import Arc.Proofs.C12.Cache
 /-!
 # C12 — tier migration never makes data unreadable or visible twice
 
@@ -337,6 +338,86 @@ theorem C12_once_cycle (n : Nat) (orc : List Outcome) {s : FileSt} (h : Reachabl
     exact of_decide_eq_true
       (List.all_eq_true.mp (List.all_eq_true.mp ho sibHot (bools_mem _)) sibCold (bools_mem _))
 
+/-! ## queries in the running process: the tier cache -/
+
+/-- Histories of the long-running process: the operations above plus virtual time, queries (which
+fill the 30 s tier cache), ageing and further files of the measurement being ingested and migrated;
+a crash inside an operation restarts the process with an empty cache. -/
+inductive ReachableW : World → Prop
+  | init (sibHot sibCold : Bool) : ReachableW { f := init, sibHot := sibHot, sibCold := sibCold }
+  | mig (n : Nat) (orc : List Outcome) {w : World} : ReachableW w → ReachableW (wMig n w orc)
+  | recon (orc : List Outcome) {w : World} : ReachableW w → ReachableW (wRec w orc)
+  | scan (orc : List Outcome) {w : World} : ReachableW w → ReachableW (wScan w orc)
+  | age {w : World} : ReachableW w → ReachableW (wAge w)
+  | tick (d : Nat) {w : World} : ReachableW w → ReachableW (wTick w d)
+  | addMig (k : Nat) {w : World} : ReachableW w → ReachableW (wAddMig w k)
+  | query {w : World} : ReachableW w → ReachableW (wQuery w).1
+
+/-- **C12_cache_invalidators.** In the CURRENT source both `RecordFile` and `UpdateTier` (every
+mutator that can change which tiers a measurement has rows in during tiering) call
+`invalidateTierCache` (generated list), and the reconcile loop visits every enumerated file. -/
+theorem C12_cache_invalidators :
+    invBy .recordFile = true ∧ invBy .updateTier = true ∧ recLoopExhaustive = true := by decide
+
+theorem reachableW_file {w : World} (h : ReachableW w) : Reachable w.f := by
+  induction h with
+  | init => exact Reachable.init
+  | mig n orc _ ih => exact Reachable.mig n orc ih
+  | recon orc _ ih => exact Reachable.recon orc ih
+  | scan orc _ ih => exact Reachable.scan orc ih
+  | age _ ih => exact Reachable.age ih
+  | tick d _ ih => exact ih
+  | addMig k _ ih =>
+    rename_i w _
+    show Reachable (wAddMig w k).f
+    unfold wAddMig; split <;> exact ih
+  | query _ ih => exact ih
+
+/-- **C12_cache_coherent.** Over all histories (any faults, any timing of queries) a tier-cache
+entry, whenever present — expired or not — lists exactly the tiers in which the measurement
+currently has rows: cached tier set = actual tier set (in particular ⊇). -/
+theorem C12_cache_coherent {w : World} (h : ReachableW w) : Coh w := by
+  induction h with
+  | init => intro e he; cases he
+  | mig n orc _ ih => exact coh_mig C12_cache_invalidators.2.1 n _ orc ih
+  | recon orc _ ih => exact coh_rec _ orc ih
+  | scan orc _ ih => exact coh_scan C12_cache_invalidators.1 _ orc ih
+  | age _ ih => exact ih
+  | tick d _ ih => exact ih
+  | addMig k _ ih => exact coh_addMig C12_cache_invalidators.1 _ k ih
+  | query _ ih => exact coh_query _ ih
+
+theorem globbed_tiers (t : Tier) (sh sc : Bool) (x : Nat) (s : FileSt) (ht : s.tier = t) :
+    globbed (entTiers { hot := decide (t = Tier.hot) || sh, cold := decide (t = Tier.cold) || sc, expires := x })
+      = globbed (actualTiers sh sc s) := by
+  unfold actualTiers entTiers
+  rw [ht]
+  cases t <;> cases sh <;> cases sc <;> rfl
+
+/-- **C12_query_warm_eq_fresh.** A query in the running process (through the tier cache, at any
+time) globs exactly the tiers a freshly started process would, so it returns the file's rows the
+same number of times: every theorem about `visibleCopies` transfers to queries at any moment. -/
+theorem C12_query_warm_eq_fresh {w : World} (h : ReachableW w) :
+    warmVisible w = visibleCopies w.sibHot w.sibCold w.f := by
+  have hq := queryEnt_tiers w (C12_cache_coherent h)
+  unfold warmVisible visibleCopies wQuery
+  simp only []
+  have he : queryEnt w = { hot := decide (w.f.tier = Tier.hot) || w.sibHot,
+                           cold := decide (w.f.tier = Tier.cold) || w.sibCold, expires := (queryEnt w).expires } := by
+    unfold World.tiers at hq
+    cases hqe : queryEnt w with
+    | mk a b c =>
+      rw [hqe] at hq
+      simp only [Prod.mk.injEq] at hq
+      simp [hq.1, hq.2]
+  rw [he, globbed_tiers w.f.tier w.sibHot w.sibCold _ w.f rfl]
+
+/-- **C12_query_visible.** At every quiescent point of every history a query in the running
+process returns the file's rows at least once (never zero times because of a stale cache). -/
+theorem C12_query_visible {w : World} (h : ReachableW w) : 1 ≤ warmVisible w := by
+  rw [C12_query_warm_eq_fresh h]
+  exact C12_visible (reachableW_file h) _ _
+
 /-! ## the proposed repair (model level): with it the FULL exactly-once clause is provable -/
 
 /-- Reachability when `ReconcileOrphanedFiles` is the repaired operation `recFixOp`
@@ -426,6 +507,14 @@ example :
     Reachable s1 ∧ Finished s1 s2 ∧ ¬ (s2.tier = Tier.hot ∧ s2.hot = true ∧ s2.cold = true ∧ true = true) ∧
     visibleCopies true true s1 = 2 ∧ visibleCopies true true s2 = 1 := by
   refine ⟨Reachable.mig 1 _ Reachable.init, Finished.reconciliation [] allOk_nil, by decide, by decide, by decide⟩
+
+/-- `C12_query_*`: a warm cache across a migration — query, migrate, query 10 s later. -/
+example :
+    let w0 : World := { f := init, sibHot := false, sibCold := false }
+    let w1 := wTick (wMig 1 (wQuery w0).1 []) 10
+    ReachableW w1 ∧ (wQuery w0).1.cache = some { hot := true, cold := false, expires := 30 } ∧
+    w1.cache = none ∧ warmVisible w1 = 1 := by
+  refine ⟨ReachableW.tick 10 (ReachableW.mig 1 [] (ReachableW.query (ReachableW.init false false))), by decide, by decide, by decide⟩
 
 /-- `C12_repaired_once`: on the witness's cold-orphan state the repaired reconciliation removes the duplicate. -/
 example :
